@@ -133,6 +133,8 @@ func genC16(r *rng, n int, hostile bool) []string {
 			iss, acc, sec := urlText(r, true), urlText(r, false), urlText(r, false)
 			if r.intn(4) == 0 {
 				sec = "GEZDGNBVGY3TQOJQGEZDGNBVGY3TQOJQ"
+			} else if r.intn(3) == 0 {
+				sec = spell(r, genKey(r)) // the way users hold secrets: any spelling, white space of a copied line included
 			}
 			if r.intn(12) == 0 {
 				iss = pick(r, []string{"", "a:b", iss})
@@ -153,6 +155,15 @@ func genC16(r *rng, n int, hostile bool) []string {
 				per = pick(r, []uint64{1 << 62, 1<<63 - 1, 1 << 63, 1<<64 - 1})
 			}
 			out = append(out, fmt.Sprintf("urlg %s %s %s %s %d %d %d", kind, hxs(iss), hxs(acc), hxs(sec), d, a, per))
+			if r.intn(6) == 0 {
+				// the same text cut differently into fields: a token moved across the issuer / account / secret boundary
+				sep := pick(r, []string{" ", " ", ",", "/", "|", "%20", "+", "\x00"})
+				w := pick(r, []string{"Ltd", "30", "x", "alice", "6"})
+				out = append(out, fmt.Sprintf("urlg %s %s %s %s %d %d %d", kind, hxs(iss+sep+w), hxs(acc), hxs(sec), d, a, per),
+					fmt.Sprintf("urlg %s %s %s %s %d %d %d", kind, hxs(iss), hxs(w+sep+acc), hxs(sec), d, a, per),
+					fmt.Sprintf("urlg %s %s %s %s %d %d %d", kind, hxs(iss), hxs(acc+sep+w), hxs(sec), d, a, per),
+					fmt.Sprintf("urlg %s %s %s %s %d %d %d", kind, hxs(iss), hxs(acc), hxs(w+sep+sec), d, a, per))
+			}
 		default:
 			// parse-only: otpauth://TYPE/LABEL?query with adversarial numbers
 			typ := pick(r, []string{"totp", "hotp", "TOTP", "Hotp", "tOtP", "totp", "xotp", "totp2", ""})
